@@ -180,6 +180,9 @@ def raw_inverse_paths(repo: Repo, rep, P: str, rule: str):
                                                    and any(isinstance(m, ast.Name) and m.id in src_vars for m in ast.walk(n.value))
                                                    for n in walk_no_nested(gfn))
 
+            # the attribute read written directly into the converted expression (helpers read through)
+            src_ok = src_ok or any(isinstance(m, ast.Call) and norm(m) == f"getattr(self, {gname})" for m in ast.walk(arg))
+
             def is_none_test(t, var_ok):
                 return isinstance(t, ast.Compare) and len(t.ops) == 1 and isinstance(t.ops[0], ast.Is) and norm(t.comparators[0]) == "None"
             none_ok = isinstance(arg, ast.IfExp) and is_none_test(arg.test, lambda x: True) and norm(arg.body) == "0"
